@@ -373,6 +373,15 @@ def r07_3(ctx, counts) -> RuleResult:
     return res
 
 
+def _shared(ctx, counts) -> list:
+    """rules of other modules that are necessary conditions of C07 too: the condition of `if`
+    is isolated like its sibling (R08.4); duration/time ordering scales microseconds by 10^6
+    (R11.2)"""
+    from .c08_sequences import r08_4
+    from .c11_datetime import r11_2
+    return [r08_4(ctx, counts), r11_2(ctx, counts)]
+
+
 def run(ctx) -> dict:
     model: Model = ctx.model
     lat = Lattice(model)
@@ -483,7 +492,8 @@ def run(ctx) -> dict:
     counts['dispatch_branches'] = n_branches
     counts['virtual_relations'] = len(lat.virtual)
     return {
-        'results': [res, r07_2(ctx, counts), r07_3(ctx, counts)], 'counts': counts,
+        'results': [res, r07_2(ctx, counts), r07_3(ctx, counts)] + _shared(ctx, counts),
+        'counts': counts,
         'explanation':
             'Dispatch-order soundness, decided over the class lattice of the source model: in '
             'every isinstance/match dispatch chain of the package (the comparison, EBV, '
